@@ -70,7 +70,7 @@ fn unmarshal_container_contents(
 ) -> UnmarshalResult<params::Container<'static, 'static>> {
     let param = match typ {
         signature::Container::Array(elem_sig) => {
-            let bytes_in_array = ctx.read_u32()? as usize;
+            let bytes_in_array = ctx.read_array_len()?;
 
             ctx.align_to(elem_sig.get_alignment())?;
 
@@ -87,7 +87,7 @@ fn unmarshal_container_contents(
             })
         }
         signature::Container::Dict(key_sig, val_sig) => {
-            let bytes_in_dict = ctx.read_u32()? as usize;
+            let bytes_in_dict = ctx.read_array_len()?;
 
             ctx.align_to(8)?;
 
